@@ -238,9 +238,30 @@ class Resolver(object):
             # Chipset of a pn53x-family driver: the Chipset class of the driver's own module
             if attr == 'chipset':
                 m = p.modules[cls.module.name]
-                ent = m.names.get('Chipset')
-                if ent and ent[0] == 'class':
-                    out.add(ent[1])
+                init = m.names.get('init')
+                if init and init[0] == 'func':
+                    f = init[1]
+                    varcls = []
+                    for n in walk_no_nested(f.node):
+                        if isinstance(n, ast.Assign) and isinstance(n.value, ast.Call) and len(n.targets) == 1 \
+                                and isinstance(n.targets[0], ast.Name):
+                            r = p.resolve_expr(m, n.value.func, scope=f)
+                            if r and r[0] == 'class':
+                                varcls.append((n.lineno, n.targets[0].id, r[1]))
+                    for n in walk_no_nested(f.node):
+                        if isinstance(n, ast.Call) and n.args:
+                            r = p.resolve_expr(m, n.func, scope=f)
+                            if r and r[0] == 'class' and r[1] is cls:
+                                a0 = n.args[0]
+                                prev = [c for ln, v, c in sorted(varcls, key=lambda x: x[0])
+                                        if isinstance(a0, ast.Name) and v == a0.id and ln <= n.lineno]
+                                if prev:
+                                    out.add(prev[-1])
+                                elif isinstance(a0, ast.Call):
+                                    r2 = p.resolve_expr(m, a0.func, scope=f)
+                                    if r2 and r2[0] == 'class':
+                                        out.add(r2[1])
+                if out:
                     done = True
         if not done:
             # property defined in the class: return types of the getter
